@@ -256,7 +256,7 @@ def cleanup_stale_scratch():
 
 def make_tree(root, entries):
     """Materialises a tree spec below `root` (bytes or str).
-    entry: {"p": relpath, "k": "file"|"dir"|"hard"|"sym"|"sparse"|"tmpfs", "c": content spec, "to": target,
+    entry: {"p": relpath, "k": "file"|"dir"|"hard"|"sym"|"sparse"|"tmpfs"|"bind", "c": content spec, "to": target,
             "mtime": ns, "atime": ns, "mode": int}
     Entries are created in list order; parents are created as needed. mtimes of files are set
     explicitly (default 2001-09-09 + index seconds) so that runs are reproducible."""
@@ -282,6 +282,12 @@ def make_tree(root, entries):
             os.makedirs(p, exist_ok=True)
             if subprocess.run(["mount", "-t", "tmpfs", "none", p], stdout=subprocess.DEVNULL, stderr=subprocess.DEVNULL).returncode != 0:
                 raise MachineryError("cannot mount a tmpfs at %r" % p)
+        elif k == "bind":
+            # the directory e["to"] (relative to the tree) made visible a second time at this path; unmounted by rmtree()
+            os.makedirs(p, exist_ok=True)
+            if subprocess.run(["mount", "--bind", os.path.join(root, b(e["to"])), p], stdout=subprocess.DEVNULL,
+                              stderr=subprocess.DEVNULL).returncode != 0:
+                raise MachineryError("cannot bind-mount at %r" % p)
         elif k == "sparse":
             # a file of e["len"] bytes with data only in the given segments [[offset, content spec], ...]: holes elsewhere
             with open(p, "wb") as f:
